@@ -169,7 +169,7 @@ func runC04(res *Result, tier string, rnd *Rand, replay string) {
 	res.Rule = "generated specifications (C02 generator) x random partitions of every application's members (types, enums, aliases, unions, endpoints, events, REST trees, subscriptions; the fields of one tuple or table over two blocks) into 1..4 blocks x assignment of the blocks to 1..3 files of an import graph (star or chain, random import order) x random order of the re-opening blocks; non-trivial = joined and split both compile and the split really has more than one block or file; distinct by hash of the split texts"
 	n, per := 60, 3
 	if tier == "thorough" {
-		n, per = 800, 6
+		n, per = 400, 4
 	}
 	for i := 0; i < n; i++ {
 		r := rnd.Fork()
